@@ -100,6 +100,16 @@ Section C09.
     from_dict b64dec loads match loads file with Some d => d | None => JNull end = Ok (Metablock sigs p).
   Proof. exact (load_dump_mb b64enc b64dec dumps loads). Qed.
 
+  (** dump and load with the strict loader (Metadata.load), both formats *)
+  Theorem C09_dump_load_mb_strict : (forall v, loads (dumps v) = Some v) -> forall sigs p,
+    read_payload_s (payload_asdict p) = Ok p -> sigs_wellformed sigs ->
+    exists file, dump b64enc dumps (Metablock sigs p) = Ok file /\ load b64dec loads file = Ok (Metablock sigs p).
+  Proof. exact (dump_load_mb b64enc b64dec dumps loads). Qed.
+  Theorem C09_dump_load_env : (forall v, loads (dumps v) = Some v) -> forall md,
+    (forall b, b64dec (b64enc b) = Some b) -> wf_envelope loads md ->
+    exists file, dump b64enc dumps md = Ok file /\ load b64dec loads file = Ok md.
+  Proof. exact (dump_load_env b64enc b64dec dumps loads). Qed.
+
   (** ** C09_reload_same_bytes — whatever file was loaded, in either format: dumping the loaded object and
       loading the dump yields the SAME object; a fortiori the re-derived signed bytes are the same bytes *)
   Theorem C09_reload_fixpoint : forall d md,
@@ -141,6 +151,18 @@ Section C09.
     norm (payload_asdict p1) = norm (payload_asdict p2).
   Proof. exact (tamper_content_mb sig_ok now_s). Qed.
 
+  (** ... in the form "the tampered file is rejected with SignatureVerificationError": the entry that is looked at
+      was valid for content 1; for any loadable content 2 that differs, verification raises *)
+  Theorem C09_tamper_content_mb_err : forall old rest p1 p2 key kid pub v m1 m2,
+    ideal sig_ok -> sslib_key_for key kid pub ->
+    (forall s, In s old -> sig_matches key s = false) ->
+    signable_bytes (payload_asdict p1) = Ok m1 -> signable_bytes (payload_asdict p2) = Ok m2 ->
+    wf_json (payload_asdict p1) = true -> wf_json (payload_asdict p2) = true ->
+    norm (payload_asdict p1) <> norm (payload_asdict p2) ->
+    sig_ok pub m1 v = true ->
+    verify (Metablock (old ++ sslib_entry kid v :: rest) p2) key = Err ESignature.
+  Proof. exact (tamper_content_mb_err sig_ok now_s). Qed.
+
   (** changed content, DSSE: if every entry the oracle accepts under this key was made over (type1, payload1),
       an envelope that verifies carries exactly that type and those payload BYTES *)
   Theorem C09_tamper_content_env : forall sigs pb1 pt1 pb2 pt2 parsed2 key,
@@ -149,6 +171,12 @@ Section C09.
     verify (Envelope pb2 pt2 sigs parsed2) key = Ok tt ->
     pb2 = pb1 /\ pt2 = pt1.
   Proof. exact (tamper_content_env sig_ok now_s). Qed.
+  Theorem C09_tamper_content_env_err : forall sigs pb1 pt1 pb2 pt2 parsed2 key kid pub,
+    sslib_key_for key kid pub ->
+    (forall s, In s sigs -> forall m, sslib_verify sig_ok s key m = Ok true -> m = pae (utf8 pt1) pb1) ->
+    (pb2 <> pb1 \/ pt2 <> pt1) ->
+    verify (Envelope pb2 pt2 sigs parsed2) key = Err ESignature.
+  Proof. exact (tamper_content_env_err sig_ok now_s). Qed.
   (** ... and that premise follows from ideal signatures when the entries verified over the original *)
   Theorem C09_entries_bound : forall sigs key m0,
     ideal sig_ok ->
@@ -347,12 +375,16 @@ Print Assumptions C09_disk_mb.
 Print Assumptions C09_loader_idempotent.
 Print Assumptions C09_disk_env.
 Print Assumptions C09_dump_load_mb.
+Print Assumptions C09_dump_load_mb_strict.
+Print Assumptions C09_dump_load_env.
 Print Assumptions C09_reload_fixpoint.
 Print Assumptions C09_reload_same_bytes.
 Print Assumptions C09_verify_sound_mb.
 Print Assumptions C09_verify_sound_env.
 Print Assumptions C09_tamper_content_mb.
+Print Assumptions C09_tamper_content_mb_err.
 Print Assumptions C09_tamper_content_env.
+Print Assumptions C09_tamper_content_env_err.
 Print Assumptions C09_entries_bound.
 Print Assumptions C09_tamper_sigvalue.
 Print Assumptions C09_other_key_mb.
